@@ -103,7 +103,7 @@ Emit(st, bytes, sid) ==
        IF s.pc > 65535 \/ s.pc + n > 65536 THEN Err(st, [k |-> "range", sid |-> sid])
        ELSE LET mem2 == [a \in s.pc..(s.pc + n - 1) |-> bytes[a - s.pc + 1]] @@ s.mem IN
             [st EXCEPT !.segs[st.cur].mem = mem2, !.segs[st.cur].pc = s.pc + n,
-                       !.srcmap = Append(@, [sid |-> sid, seg |-> st.cur, lo |-> s.pc + s.toff, n |-> n])]
+                       !.srcmap = Append(@, [sid |-> sid, seg |-> st.cur, lo |-> s.pc + s.toff, n |-> n, scope |-> st.scope])]
 
 (* define a symbol in the current scope.
    first = TRUE : block symbols - and +: the first definition in a pass wins (a later one is an ignored error).
@@ -260,7 +260,12 @@ WalkStmt(s, st, sigma, frozen, af, md) ==
                           IF v.k = "unres" THEN NoteUnresAt(p, v, frozen, s.sid)
                           ELSE IF v.k = "undef" THEN Unspec(p)
                           ELSE Define(p, d.params[i], v, FALSE)
-               IN Pop(WalkSeq(d.body, B[Len(d.params)], sigma, frozen, af, md))
+                   r2 == WalkSeq(d.body, B[Len(d.params)], sigma, frozen, af, md)
+                   (* listing mode: what the macro's own scope emitted is attributed to the invocation *)
+                   r3 == IF md.moveMacro
+                           THEN [r2 EXCEPT !.srcmap = [i \in 1..Len(@) |-> IF @[i].scope = r2.scope THEN [@[i] EXCEPT !.sid = s.sid, !.scope = st.scope] ELSE @[i]]]
+                           ELSE r2
+               IN Pop(r3)
     [] s.k = "import" ->
         IF s.file \notin DOMAIN md.files THEN st
         ELSE LET s0 == Push(st, s.sid)
@@ -300,13 +305,20 @@ DefinesSegments(prog) == \E i \in 1..Len(prog) : prog[i].k = "defseg"
 Ref(prog, sigma, defaultPc, af) ==
   LET segs0 == IF DefinesSegments(prog) THEN <<>> ELSE ("default" :> NewSeg(defaultPc, defaultPc))
       cur0  == IF DefinesSegments(prog) THEN "" ELSE "default"
-      r == WalkSeq(prog, InitState(<<>>, segs0, cur0), sigma, TRUE, af, [md |-> MacroDefs(prog, <<>>), files |-> <<>>]) IN
+      r == WalkSeq(prog, InitState(<<>>, segs0, cur0), sigma, TRUE, af, [md |-> MacroDefs(prog, <<>>), files |-> <<>>, moveMacro |-> FALSE]) IN
   [r EXCEPT !.tab = SegSyms(r.segs) @@ @]
 (* the same for a multi-file project: files maps a file name to its statements *)
 RefF(prog, files, sigma, defaultPc, af) ==
   LET segs0 == IF DefinesSegments(prog) THEN <<>> ELSE ("default" :> NewSeg(defaultPc, defaultPc))
       cur0  == IF DefinesSegments(prog) THEN "" ELSE "default"
-      r == WalkSeq(prog, InitState(<<>>, segs0, cur0), sigma, TRUE, af, [md |-> MacroDefs(prog, <<>>), files |-> files]) IN
+      r == WalkSeq(prog, InitState(<<>>, segs0, cur0), sigma, TRUE, af, [md |-> MacroDefs(prog, <<>>), files |-> files, moveMacro |-> FALSE]) IN
+  [r EXCEPT !.tab = SegSyms(r.segs) @@ @]
+
+(* reference walk in listing mode (macro output attributed to the invocation site when move = TRUE) *)
+RefL(prog, files, sigma, defaultPc, af, move) ==
+  LET segs0 == IF DefinesSegments(prog) THEN <<>> ELSE ("default" :> NewSeg(defaultPc, defaultPc))
+      cur0  == IF DefinesSegments(prog) THEN "" ELSE "default"
+      r == WalkSeq(prog, InitState(<<>>, segs0, cur0), sigma, TRUE, af, [md |-> MacroDefs(prog, <<>>), files |-> files, moveMacro |-> move]) IN
   [r EXCEPT !.tab = SegSyms(r.segs) @@ @]
 
 (* ---------------------------------------------------------------- the pass loop *)
@@ -319,7 +331,7 @@ MInit == [tab |-> <<>>, segs |-> <<>>, cur0 |-> "", undef |-> {}, prevUndef |-> 
 (* one pass: walk in place, then (re)register the segment symbols through the same insertion rule *)
 RunPass(prog, m, af) ==
   LET st0 == [InitState(m.tab, [n \in DOMAIN m.segs |-> ResetSeg(m.segs[n])], m.cur0) EXCEPT !.undef = m.undef, !.vars = m.vars]
-      r  == WalkSeq(prog, st0, <<>>, FALSE, af, [md |-> MacroDefs(prog, <<>>), files |-> <<>>])
+      r  == WalkSeq(prog, st0, <<>>, FALSE, af, [md |-> MacroDefs(prog, <<>>), files |-> <<>>, moveMacro |-> FALSE])
       ss == SegSyms(r.segs)
       K  == DOMAIN ss
       Reg[S \in SUBSET K] ==          \* insertion of the segment symbols, one at a time
